@@ -458,6 +458,8 @@ struct Engine
         if (P.obstacle > 0) {
             // a directory that occupies the name of a future rotated file: the rename to it fails as a whole
             std::string n = stem + ".2026-01-01." + std::to_string(P.obstacle) + (suffix.empty() ? "" : "." + suffix);
+            if (P.obstacle_gz)
+                n += ".gz"; // ... or of its compressed form: the rename works, the compression cannot be created
             mkdir((logdir_path + "/" + n).c_str(), 0700);
         }
         name_sibling();
